@@ -42,3 +42,28 @@ Theorem C10_healthy_sibling_sees_everything : forall (E : Type) (l : list (pact 
   s_passed s ++ s_queue s = expected_suffix (s_from s) (p_seen (prun l)).
 Proof. exact open_subscriber_sees_exact_suffix. Qed.
 Print Assumptions C10_healthy_sibling_sees_everything.
+
+(* on the goroutine-level protocol (PubLts.v): every step that concerns one
+   subscription leaves every other subscription untouched; whatever was dropped
+   or failed, what a consumer holds is an in-order subsequence; and the
+   publisher never waits for a consumer — from every reachable state in which an
+   event is being distributed, steps of the publisher and of the subscriptions'
+   own goroutines alone (no consumer receives anything) complete the
+   distribution *)
+From KC Require Import PubLts PubLtsProps.
+Theorem C10_lts_step_is_local : forall (E : Type) (p : cpub E) a p' i j, cstep p a = Some p' -> concerns E a = Some i -> i <> j ->
+  nth_error (k_subs p') j = nth_error (k_subs p) j.
+Proof. exact step_is_local. Qed.
+Print Assumptions C10_lts_step_is_local.
+
+Theorem C10_lts_receives_subsequence : forall (E : Type) l (p : cpub E) i c, crun cinit l = Some p ->
+  nth_error (k_subs p) i = Some c ->
+  subseq (held E c) (skipn (c_from c) (seen_for E p i)).
+Proof. exact lts_receives_subsequence. Qed.
+Print Assumptions C10_lts_receives_subsequence.
+
+Theorem C10_publisher_never_waits_for_consumers : forall (E : Type) l (p : cpub E) e rem, crun cinit l = Some p ->
+  k_cur p = Some (e, rem) ->
+  exists l' p', Forall (library_step E) l' /\ crun p l' = Some p' /\ k_cur p' = None.
+Proof. exact publisher_never_waits_for_consumers. Qed.
+Print Assumptions C10_publisher_never_waits_for_consumers.
